@@ -248,8 +248,12 @@ UpdOpret(sh, ev) ==
                                  !.misuse = @ \/ ~sh.en[tgt]], tgt)
     [] ev.op = "enable" /\ ok /\ co.live ->
          Rearm([base EXCEPT !.en[tgt] = TRUE, !.misuse = @ \/ sh.en[tgt]], tgt)
+    [] ev.op = "enable" /\ ev.r = "err" /\ co.live /\ sh.en[tgt] /\ co.ctx # tgt /\ ~IsTimer(sh, tgt) ->
+         \* enabling an fd-backed source that is enabled already: the registration fails (EEXIST) and, like every
+         \* failed registration, must leave the loop as it was (C15; the next snapshot is compared with the last one)
+         [base EXCEPT !.faultSeen = TRUE, !.cmpSnap = co.ctx = 0]
     [] ev.op = "enable" /\ ~ok /\ co.live /\ (sh.en[tgt] \/ co.ctx = tgt) ->
-         \* enabling an enabled source / the running source is outside the contract
+         \* enabling the running source (or an enabled timer) is outside the contract
          [base EXCEPT !.misuse = TRUE]
     [] ev.op = "update" /\ ok /\ co.live ->
          IF co.ctx = tgt THEN [base EXCEPT !.deferred[tgt] = "reregister",
@@ -680,8 +684,24 @@ ViolSnap(sh, ev) ==
           \cup If(\E e \in SymDiffSet({x \in SnapEpoll6(ev) : x[1] \notin FuzzyFds(sh)}, {x \in ExpectedEpoll(sh) : x[1] \notin FuzzyFds(sh)}) :
                      \E s \in sh.cbTargets \cap sh.S : e[1] \in RangeOf(sh.decl[s].fds),
                   {<<"C08", "in_callback_operation_effect_differs">>}))
+  \* C06: a source that is no longer inserted has left something behind in the loop: a kernel registration of one of
+  \* its fds (that no inserted source shares), a lifecycle entry under one of its old keys, or a timer arming
+  \cup If(\/ \E e \in SnapEpoll6(ev) \ ExpectedEpoll(sh) :
+               /\ e[1] \notin FuzzyFds(sh) /\ ~sh.c16off
+               /\ \E x \in sh.S : sh.life[x] = "out" /\ e[1] \in RangeOf(sh.decl[x].fds)
+               /\ ~\E y \in sh.S : sh.life[y] = "in" /\ e[1] \in RangeOf(sh.decl[y].fds)
+          \/ /\ ~(\E x \in sh.S : sh.fuzzy[x])
+             /\ \E k \in LifeSetOf(ev) : \E i \in DOMAIN sh.tokens : <<sh.tokens[i].id, sh.tokens[i].ver>> = k /\ ~LiveTok(sh, i)
+                                           /\ ~\E j \in DOMAIN sh.tokens : <<sh.tokens[j].id, sh.tokens[j].ver>> = k /\ LiveTok(sh, j)
+          \/ /\ ev.heap > Cardinality({x \in sh.S : IsTimer(sh, x) /\ sh.life[x] = "in" /\ sh.en[x] /\ sh.armed[x]})
+             /\ ~(\E x \in sh.S : sh.fuzzy[x] /\ IsTimer(sh, x)) /\ ~sh.prevDispErr
+             /\ \E x \in sh.S : IsTimer(sh, x) /\ sh.life[x] = "out",
+          {<<"C06", "removed_source_left_registrations">>})
   \cup If(sh.cmpSnap /\ sh.lastSnap.valid /\ SnapDiffers(sh.lastSnap, ev),
           {<<"C15", "failed_insert_changed_loop_state">>})
+  \* ... in particular the set of sources that get lifecycle notifications
+  \cup If(sh.cmpSnap /\ sh.lastSnap.valid /\ sh.lastSnap.life # ev.life,
+          {<<"C14", "failed_registration_changed_lifecycle_set">>})
   \cup If(~SnapSubsDistinct(ev), {<<"C16", "duplicate_sub_token">>, <<"C20", "duplicate_sub_token">>})
 
 ViolEnd(sh, ev) ==
